@@ -316,6 +316,16 @@ def gen_op(rng):
         (1, lambda: "lchown %s 5 6" % any_path(rng)),
         (1, lambda: "burst %s %d %d" % (rng.choice(["mkdir", "stat", "open", "mixed"]),
                                         rng.choice([63, 64, 65, 66, 128, 256]), rng.choice([1, 2]))),
+        (2, lambda: "symlink @t%d %s" % (rng.choice([1, 255, 256, 257, 1000, 4094, 4095, 4096, 5000, rng.randint(200, 4200)]),
+                                         rng.choice(["L1", "L2", "d2/L3"]))),
+        (2, lambda: "readlink %s" % rng.choice(["L1", "L2", "d2/L3"])),
+        (2, lambda: "%s @p%d:%s" % (rng.choice(["stat", "lstat", "unlink", "rmdir", "readlink", "realpath", "scandir"]),
+                                    rng.choice([4094, 4095, 4096, 4097, 5000]), rng.choice(["a.txt", "d1", "ln", "nope"]))),
+        (1, lambda: "open s%d @p%d:%s %d 644" % (rng.choice([0, 1]), rng.choice([4095, 4096]), rng.choice(["a.txt", "n1"]), rng.choice([0, 66]))),
+        (1, lambda: "mkdir @p%d:%s 755" % (rng.choice([4095, 4096]), rng.choice(["n2", "d1"]))),
+        (1, lambda: "rename %s %s" % tuple(rng.sample(["@p4095:a.txt", "@p4096:a.txt", "@p4095:n1", "b.txt", "@n255", "@n256"], 2))),
+        (1, lambda: "%s @n%d+XXXXXX" % (rng.choice(["mkdtemp", "mkstemp s2"]), rng.choice([248, 249, 250]))),
+        (1, lambda: "open s2 d2/+@n%d 66 644" % rng.choice([254, 255, 256])),
         (1, lambda: "cancel %s" % rng.choice(["stat", "read", "write", "rename", "scandir", "mkdtemp", "readlink"])),
     ]
     tot = sum(w for w, _ in kinds)
@@ -406,8 +416,9 @@ def routes_projection(p):
         if o["name"] == "cancel":
             out.append("%d:%s via=- sqe=- mS=- mP=%s mR=-" % (o["i"], o["name"], cell_m(o["P"])))
         else:
-            out.append("%d:%s via=%s sqe=%s mS=%s mP=%s mR=%s" %
-                       (o["i"], o["name"], via, sq, cell_m(o["S"]), cell_m(o["P"], True), cell_m(R, via != "r")))
+            out.append("%d:%s via=%s sqe=%s mS=%s mP=%s mR=%s%s" %
+                       (o["i"], o["name"], via, sq, cell_m(o["S"]), cell_m(o["P"], True), cell_m(R, via != "r"),
+                        (" bs=" + o["S"][0]["bs"]) if o["name"] == "readlink" and "bs" in o["S"][0] else ""))
     return " ; ".join(out) + " ; "
 
 
@@ -415,7 +426,9 @@ def routes_model_input(case, p, kv, ring):
     ops = case.split(" | ")
     items = []
     for txt, o in zip(ops, p["ops"]):
-        items.append("%s @ %s %s %s" % (txt, cell_res(o["S"]), cell_res(o["P"]), cell_res(o["R"])))
+        if o["name"] == "readlink" and "pc" in o["S"][0]:
+            txt = "%s %s" % (txt, o["S"][0]["pc"])      # the pathconf answer is an oracle input
+        items.append("%s # %s %s %s" % (txt, cell_res(o["S"]), cell_res(o["P"]), cell_res(o["R"])))
     return "%s %d ; %s" % (kv, ring, " | ".join(items))
 
 
@@ -468,7 +481,7 @@ def routes_monitor_parsed(case, p):
                     continue    # kernel: IORING_OP_READV of zero bytes on a directory is 0, read(2) is EISDIR (notes, obs. 6)
                 return "op %d (%s): route %s gives %s %s, POSIX gives %s %s" % (
                     o["i"], txt, {"S": "sync", "P": "pool", "R": "ring"}.get(rt, rt), got[0], got[1], ref[0], ref[1])
-        if cell_res(o["X"]) == "alias":
+        if cell_res(o["X"]) == "alias" or name == "mkdirp":
             continue
         # callbacks exactly once, memory released
         for rt in "PR":
@@ -633,12 +646,12 @@ def main():
         lib = vf.build_libuv(chk.scratch, "ndebug")
         hbufs = vf.cc_harness(chk.scratch, "c11_bufs", ["c11_bufs.c"], lib=lib, wraps=WRAPS_BUFS,
                               extra=["-rdynamic"])
-        hroutes = vf.cc_harness(chk.scratch, "c11_routes", ["c11_routes.c"], lib=lib, wraps=["syscall"])
+        hroutes = vf.cc_harness(chk.scratch, "c11_routes", ["c11_routes.c"], lib=lib, wraps=["syscall", "readlink"])
         hpool = vf.cc_harness(chk.scratch, "c11_pool", ["c11_pool.c"], lib=lib)
         hsq = vf.cc_harness(chk.scratch, "c11_sqring", ["c11_sqring.c"], lib=lib)
         liba = vf.build_libuv(chk.scratch, "asan")
         hroutes_a = vf.cc_harness(chk.scratch, "c11_routes_asan", ["c11_routes.c"], lib=liba,
-                                  flavour="asan", wraps=["syscall"])
+                                  flavour="asan", wraps=["syscall", "readlink"])
         hbufs_a = vf.cc_harness(chk.scratch, "c11_bufs_asan", ["c11_bufs.c"], lib=liba, flavour="asan",
                                 wraps=WRAPS_BUFS, extra=["-rdynamic"])
         model = vf.model_bin("C11")
